@@ -284,11 +284,17 @@ def _fworker(arg):
     bins = make_bins(n)
     for name, vals in case["weights"].items():
         bins[name] = [np.nan if v is None else v for v in vals]
+        if case.get("wdtype", {}).get(name):          # a weight column STORED with an integer dtype (e.g. a raw coverage vector)
+            bins[name] = bins[name].astype(case["wdtype"][name])
     cooler.create_cooler(path, bins, df, symmetric_upper=case["symm"], dtypes={"count": np.int64})
     with h5py.File(path, "r") as f:
         b1 = f["pixels/bin1_id"][:].tolist(); b2 = f["pixels/bin2_id"][:].tolist(); cnt = f["pixels/count"][:].tolist()
         off = f["indexes/bin1_offset"][:].tolist()
         wraw = {name: [float(v) for v in f["bins/" + name][:]] for name in case["weights"]}
+        for name, dt in case.get("wdtype", {}).items():
+            if name in case["weights"] and str(f["bins/" + name].dtype) != dt:
+                res_dtype_note = f"bins/{name} stored as {f['bins/' + name].dtype}, asked {dt}"
+                raise AssertionError(res_dtype_note)
     F = [[0] * n for _ in range(n)]
     for r, c, v in zip(b1, b2, cnt):
         F[r][c] += v
@@ -394,6 +400,19 @@ def gen_float_cases(ctx, base):
         grid = [(b, d) for b in [True, "KR", "VC_SQRT", "w2", "nope"] for d in [None, True, False]]
         out.append({"n": n, "pixels": pix, "symm": symm, "weights": cols, "chunk": [1, 2, 10 ** 7][k % 3], "float_only": True,
                     "options": [list(grid[(k * 4 + t * 3) % len(grid)]) for t in range(5)]})
+    # weight columns stored with INTEGER dtypes (values 1..9, small counts: every product is exact, so the three output forms
+    # and the model must agree bit for bit whatever dtype numpy carries the intermediate in)
+    for k in range(4 if ctx.tier == "quick" else 12):
+        n = rng.choice([2, 3, 4])
+        symm = k % 2 == 0
+        cells = [(i, j) for i in range(n) for j in (range(i, n) if symm else range(n))]
+        pix = [[i, j, rng.randint(1, 9)] for (i, j) in cells if rng.random() < 0.8]
+        cols = {name: [rng.randint(1, 9) for _ in range(n)] for name in NAMES}
+        dts = ["int64", "int32", "uint8", "int16"]
+        grid = [(b, d) for b in [True, "KR", "VC", "VC_SQRT", "w2"] for d in [None, True, False]]
+        out.append({"n": n, "pixels": pix, "symm": symm, "weights": cols, "chunk": [1, 2, 10 ** 7][k % 3], "float_only": True,
+                    "wdtype": {name: dts[(k + t) % len(dts)] for t, name in enumerate(NAMES)},
+                    "options": [list(grid[(k * 4 + t * 3) % len(grid)]) for t in range(6)]})
     return out
 
 
@@ -566,7 +585,7 @@ def run(ctx):
         wins = windows(c["n"])
         im = r["cks"][oi][form]
         keys = [common.short_hash(("f", k, oi, w)) for w in wins if w[1] > w[0] and w[3] > w[2]] if c["pixels"] else []
-        ctx.count(len(wins), nontrivial_keys=keys, kind=f"binary64/{'special' if c['float_only'] else 'ordinary'} weights/{form}")
+        ctx.count(len(wins), nontrivial_keys=keys, kind=f"binary64/{'integer-dtype' if c.get('wdtype') else ('special' if c['float_only'] else 'ordinary')} weights/{form}")
         for w, a, b_ in zip(wins, im, mo):
             if a[0] in (-1, -8, -9) and b_[0] == -1 and a[0] != -8:
                 continue
